@@ -13,6 +13,11 @@ def run_mutant(m):
     d = tempfile.mkdtemp(prefix="verif-selftest-", dir="/var/tmp")
     try:
         subprocess.run(["rsync", "-a", "--exclude", ".git", REPO + "/", d + "/"], check=True)
+        if m.get("patch"):
+            # a seeded change kept under /verif/seeded (unified diff of non-test source files)
+            pr = subprocess.run(["patch", "-p1", "-s", "-i", os.path.join(VERIF, m["patch"])], cwd=d, capture_output=True, text=True)
+            if pr.returncode != 0:
+                return (m, "STALE", "patch does not apply: " + (pr.stdout + pr.stderr)[-200:])
         for e in m["edits"]:
             p = os.path.join(d, e["file"])
             s = open(p).read()
